@@ -9,6 +9,7 @@ import (
 	"fmt"
 	"math/big"
 	"math/rand"
+	"sync"
 
 	"com.tuntun.rangers/node/src/common"
 	"com.tuntun.rangers/node/src/consensus/base"
@@ -70,6 +71,8 @@ type Opts struct {
 	// Miners: build the group from these miners (same ids, same long-term secrets) instead of fresh ones:
 	// a second group with the same membership gets other share keys (they depend on the group hash).
 	Miners []*model.SelfMinerInfo
+	// ConcurrentDeal: the dealers of the group deal at the same time, each in its own goroutine.
+	ConcurrentDeal bool
 }
 
 // idFor builds member i's id (0-based) in the given style.
@@ -143,6 +146,11 @@ func RunDKG(rng *rand.Rand, n int, tag string) (*Group, error) {
 	return RunDKGOpts(rng, n, tag, Opts{})
 }
 
+// PanicError: the node's code panicked during the key generation.
+type PanicError struct{ What string }
+
+func (e *PanicError) Error() string { return "panic: " + e.What }
+
 // RunDKGOpts is RunDKG with a choice of member ids and with dealers that deal a second time.
 func RunDKGOpts(rng *rand.Rand, n int, tag string, o Opts) (*Group, error) {
 	g := &Group{N: n}
@@ -178,8 +186,36 @@ func RunDKGOpts(rng *rand.Rand, n int, tag string, o Opts) (*Group, error) {
 	g.K = g.Nodes[0].Threshold()
 	// dealing
 	pieces := make([]map[string]model.SharePiece, n)
+	if o.ConcurrentDeal {
+		// every dealer deals in a goroutine of its own, all released together
+		var wg sync.WaitGroup
+		start := make(chan struct{})
+		panics := make([]string, n)
+		for i := 0; i < n; i++ {
+			wg.Add(1)
+			go func(i int) {
+				defer wg.Done()
+				defer func() {
+					if r := recover(); r != nil {
+						panics[i] = fmt.Sprint(r)
+					}
+				}()
+				<-start
+				pieces[i] = g.Nodes[i].GenSharePieces()
+			}(i)
+		}
+		close(start)
+		wg.Wait()
+		for i := 0; i < n; i++ {
+			if panics[i] != "" {
+				return nil, &PanicError{What: "GenSharePieces of dealer " + fmt.Sprint(i+1) + ": " + panics[i]}
+			}
+		}
+	}
 	for i := 0; i < n; i++ {
-		pieces[i] = g.Nodes[i].GenSharePieces()
+		if !o.ConcurrentDeal {
+			pieces[i] = g.Nodes[i].GenSharePieces()
+		}
 		g.SeedPK = append(g.SeedPK, g.Nodes[i].SeedPubKey())
 	}
 	// delivery in random order, with some duplicates
